@@ -5,7 +5,7 @@ EXTENDS TimerStats
 
 CONSTANTS MaxN, ValSet, Pcts, Mode      \* Mode: "summary" | "hist"
 
-InvPat(n, pat) == [i \in 1..n |-> CASE pat = 1 -> 1 [] pat = 2 -> (<<1, 2, 4, 10, 2, 1, 4>>)[i] [] OTHER -> 10]
+InvPat(n, pat) == [i \in 1..n |-> CASE pat = 1 -> 1 [] pat = 2 -> (<<1, 2, 4, 10, 2, 1, 4, 2, 10, 1>>)[i] [] OTHER -> 10]
 Item(ok, b) == [ok |-> ok, b |-> b]
 TagPool == << <<Item(TRUE, 0), Item(TRUE, 2)>>,                       \* "0_2"
               <<Item(FALSE, 0), Item(TRUE, 1), Item(FALSE, 0), Item(TRUE, -1), Item(TRUE, 3)>>,   \* "x_1__-1_3"
